@@ -19,7 +19,7 @@ package types
 // ---- the protocol codec's decoder (C13, C14) ----
 //@ pred wf_dec(d) = d != nil && d.buf != nil && d.buf.i >= 0 && d.buf.i <= int64(len(d.buf.s)) && len(d.buf.s) < 4294967296
 //@ stable ValidatorsCount CoresCount EpochLength AvailBitfieldBytes MaxLookupAge ValidatorsSuperMajority
-//@ pred params_ok() = ValidatorsCount >= 1 && ValidatorsCount <= 1023 && CoresCount >= 1 && CoresCount <= 341 && EpochLength >= 1 && EpochLength <= 600 && AvailBitfieldBytes >= 1 && AvailBitfieldBytes <= 43 && MaxLookupAge >= 1 && MaxLookupAge <= 14400 && ValidatorsSuperMajority >= 1 && ValidatorsSuperMajority <= 683
+//@ pred params_ok() = ValidatorsCount >= 1 && ValidatorsCount <= 1023 && CoresCount >= 1 && CoresCount <= 341 && EpochLength >= 1 && EpochLength <= 600 && AvailBitfieldBytes >= 1 && AvailBitfieldBytes <= 43 && MaxLookupAge >= 1 && MaxLookupAge <= 14400 && ValidatorsSuperMajority >= 1 && ValidatorsSuperMajority <= 683 && AvailBitfieldBytes*8 >= CoresCount
 
 //@ func (*Decoder).decodeUintFromReader
 //@   props C12 C13 C14
@@ -82,3 +82,11 @@ package types
 //@   ensures ok: result1 == nil ==> d.buf.i == i0+1 && i0 < int64(len(d.buf.s)) && result0 == d.buf.s[int(i0)]
 //@   ensures eof: result1 != nil ==> d.buf.i == i0 && result0 == 0 && i0 >= int64(len(d.buf.s))
 //@   assigns d.buf.i, d.buf.prevRune
+
+// GP (11.7) availability bitfield: one bit per core, AvailBitfieldBytes = ceil(CoresCount/8) octets
+//@ func MakeBitfieldFromByteSlice
+//@   props C14
+//@   requires params: params_ok()
+//@   ensures len: result1 == nil ==> len(result0) == CoresCount && fresh(result0)
+//@   ensures rejected: len(bytes) != AvailBitfieldBytes ==> result1 != nil
+//@   opt loopinv=params_ok() && len(bitfield) == CoresCount && len(bytes) == AvailBitfieldBytes && fresh(bitfield) && frame_only()
